@@ -8,15 +8,17 @@ from .trace import Op, Dump
 from .props_l1 import L1Prop, sizes
 from .props_http import HResp, HOp
 
-# request kinds relative to the prefix: client 1 exists (3 versions, snapshot), client 5 is new
+# request kinds relative to the prefix: client 1 exists (3 versions, snapshot), client 5 is new.
+# Ids are pinned to positions of the prefix (ver:1:2 = the latest before the overlap) so that the
+# one-at-a-time candidates quote exactly the ids the overlapping requests quoted.
 KINDS = {
     "AVnew": "http POST av hyph=nil hyph=5 history b:{d}",
     "AVnewP": "http POST av hyph=$p5 hyph=5 history b:{d}",
-    "AVlatest": "http POST av hyph=latest:1 hyph=1 history b:{d}",
-    "AVstale": "http POST av hyph=anc:1:1 hyph=1 history b:{d}",
-    "GCVlatest": "http GET gcv hyph=latest:1 hyph=1 absent e",
+    "AVlatest": "http POST av hyph=ver:1:2 hyph=1 history b:{d}",
+    "AVstale": "http POST av hyph=ver:1:1 hyph=1 history b:{d}",
+    "GCVlatest": "http GET gcv hyph=ver:1:2 hyph=1 absent e",
     "GCVnew": "http GET gcv hyph=nil hyph=5 absent e",
-    "ASlatest": "http POST as hyph=latest:1 hyph=1 snapshot b:{d}",
+    "ASlatest": "http POST as hyph=ver:1:2 hyph=1 snapshot b:{d}",
     "ASnewP": "http POST as hyph=$p5 hyph=5 snapshot b:{d}",
     "ASnewNil": "http POST as hyph=nil hyph=5 snapshot b:{d}",
     "GS": "http GET snap - hyph=1 absent e",
